@@ -39,10 +39,22 @@ def scratch():
         base = os.environ.get("VERIF_SCRATCH")
         if not base:
             base = "/dev/shm" if os.path.isdir("/dev/shm") and os.access("/dev/shm", os.W_OK) else tempfile.gettempdir()
+        _reap_stale(base)
         _scratch = tempfile.mkdtemp(prefix="verif.%d." % os.getpid(), dir=base)
         atexit.register(_cleanup)
         signal.signal(signal.SIGTERM, lambda *a: sys.exit(EXIT_INFRA))
     return _scratch
+
+
+def _reap_stale(base):
+    """remove scratch directories left by runs of this tool that were killed (tmpfs space is memory)"""
+    try:
+        for n in os.listdir(base):
+            m = re.match(r"verif\.(\d+)\.", n)
+            if m and not os.path.exists("/proc/%s" % m.group(1)):
+                shutil.rmtree(os.path.join(base, n), ignore_errors=True)
+    except OSError:
+        pass
 
 
 def _cleanup():
